@@ -13,6 +13,7 @@ import (
 	"time"
 
 	otter "github.com/maypok86/otter/v2"
+	"github.com/maypok86/otter/v2/internal/verif/vdet"
 	"github.com/maypok86/otter/v2/internal/verif/vsched"
 	"github.com/maypok86/otter/v2/stats"
 )
@@ -27,19 +28,20 @@ import (
 const tickNs = int64(1) << 30
 
 type CacheCfg struct {
-	MaxSize    int    `json:"max_size,omitempty"`
-	MaxWeight  uint64 `json:"max_weight,omitempty"`
-	Expiry     string `json:"expiry,omitempty"`  // "", creating, writing, accessing, custom
-	TTL        int64  `json:"ttl,omitempty"`     // default duration returned by the expiry calculator
-	Refresh    string `json:"refresh,omitempty"` // "", creating, writing
-	RefreshTTL int64  `json:"refresh_ttl,omitempty"`
-	Executor   string `json:"executor,omitempty"` // caller (default) | default | deferred
-	InitCap    int    `json:"init_cap,omitempty"`
-	Stats      bool   `json:"stats,omitempty"`
-	ClockStart int64  `json:"clock_start,omitempty"`
-	WriteMax   uint32 `json:"write_max,omitempty"` // override of maxWriteBufferSize
-	Collide    bool   `json:"collide,omitempty"`   // every key hashes to the same bucket and meta byte
-	NoHandlers bool   `json:"no_handlers,omitempty"`
+	MaxSize    int      `json:"max_size,omitempty"`
+	MaxWeight  uint64   `json:"max_weight,omitempty"`
+	Expiry     string   `json:"expiry,omitempty"`  // "", creating, writing, accessing, custom
+	TTL        int64    `json:"ttl,omitempty"`     // default duration returned by the expiry calculator
+	Refresh    string   `json:"refresh,omitempty"` // "", creating, writing
+	RefreshTTL int64    `json:"refresh_ttl,omitempty"`
+	Executor   string   `json:"executor,omitempty"` // caller (default) | default | deferred
+	InitCap    int      `json:"init_cap,omitempty"`
+	Stats      bool     `json:"stats,omitempty"`
+	ClockStart int64    `json:"clock_start,omitempty"`
+	WriteMax   uint32   `json:"write_max,omitempty"` // override of maxWriteBufferSize
+	Collide    bool     `json:"collide,omitempty"`   // every key hashes to the same bucket and meta byte
+	Hashes     []uint64 `json:"hashes,omitempty"`    // per-key hash override (index = key)
+	NoHandlers bool     `json:"no_handlers,omitempty"`
 }
 
 func (c CacheCfg) String() string {
@@ -125,6 +127,7 @@ type OpResult struct {
 	Calls   int // compute callback invocations
 	SawVal  int
 	SawOK   bool
+	joined  bool
 }
 
 func (r OpResult) String() string {
@@ -208,6 +211,17 @@ var errLoad = errors.New("load failed")
 func NewRig(cfg CacheCfg, x *Exec) *Rig {
 	r := &Rig{Cfg: cfg, X: x, ttl: map[int]int64{}, rttl: map[int]int64{}, opIndex: map[int]int{}, Installs: map[int]int{}, loadPlan: map[int]string{}}
 	r.Clock = &manualClock{now: cfg.ClockStart, tick: make(chan time.Time), sample: map[int]int64{}}
+	if cfg.Collide {
+		vdet.HashFn = func(seed uint64, key any) uint64 { return 5 }
+	} else if len(cfg.Hashes) > 0 {
+		hs := cfg.Hashes
+		vdet.HashFn = func(seed uint64, key any) uint64 {
+			if k, ok := key.(int); ok && k >= 0 && k < len(hs) {
+				return hs[k]
+			}
+			return vdet.DefaultHash(seed, key)
+		}
+	}
 	if cfg.WriteMax > 0 {
 		otter.VerifSetBufferSizes(cfg.WriteMax, 0)
 	} else {
@@ -530,6 +544,10 @@ func (r *Rig) Do(th int, op string) (res OpResult) {
 			res.Panic = fmt.Sprint(p)
 			if e, ok := p.(error); ok {
 				res.Panic = e.Error()
+			}
+			// panicError carries a stack trace with addresses: keep the first line only (observations must be reproducible)
+			if i := strings.Index(res.Panic, "\n"); i >= 0 {
+				res.Panic = res.Panic[:i]
 			}
 		}
 	}()
